@@ -116,7 +116,12 @@ def has_quant(f):
     return r
 
 
+FEAS_MS = int(os.environ.get('PV_FEAS_MS', '0'))
+
+
 def feasible(formulas, timeout_ms=400):
+    if FEAS_MS:
+        timeout_ms = min(timeout_ms, FEAS_MS)
     """Path pruning only: quantified facts are left out and 'unknown' counts as feasible
     (sound: more paths are explored, never fewer)."""
     s = _mk_solver(timeout_ms)
